@@ -2,8 +2,22 @@ package checks
 
 import "verif/mc/fw"
 
-type c14RouterCfg struct{}
+// router clause of C14: explored on the cache-state graph of c07.go.
 
-func c14GenRouter(tier string, emit func(c14Case)) {}
+type c14RouterCfg struct {
+	Cfg cgConfig `json:"config"`
+	Ext bool     `json:"extended_alphabet"`
+}
 
-func c14RunRouter(c c14Case, st *fw.Stats) []fw.Viol { return nil }
+func c14GenRouter(tier string, emit func(c14Case)) {
+	cgGen(tier, func(c cgConfig, ext bool) {
+		if c.Cap == 0 {
+			return
+		}
+		emit(c14Case{Kind: "router", Router: &c14RouterCfg{Cfg: c, Ext: ext}})
+	})
+}
+
+func c14RunRouter(c c14Case, st *fw.Stats) []fw.Viol {
+	return cacheGraphRun(c.Router.Cfg, cgReqs(c.Router.Ext), "C14", st)
+}
